@@ -313,6 +313,7 @@ func (d *depEngine) callDepsIdx(call *ssa.Call, idx int, out map[string]bool, de
 }
 
 var depHelperDepth int
+
 type depHelperKey struct {
 	fn  *ssa.Function
 	idx int
